@@ -70,14 +70,17 @@ def temperature_pairs():
     out = []
     for it in ("euler", "rk4"):
         for kind, temp in (("array", ("array", [0, H(100.0)], [1000, 1006])), ("function", ("function", [0, H(60.0), H(100.0)], [1000, 995, 1001])),
-                           ("const", ("const", 1003))):
+                           ("const", ("const", 1003)),
+                           # instantaneous steps: a break point time given twice (hold, quench, hold; and a step up)
+                           ("quench", ("array", [0, H(30.0), H(30.0), H(100.0)], [1004, 1004, 1000, 1000])),
+                           ("stepup", ("array", [0, H(30.0), H(30.0), H(100.0)], [1000, 1000, 1004, 1004]))):
             a = dict(base, temp=temp, iter=it, temp_via="setter", tag="temp-%s-%s-setter" % (kind, it))
             b = dict(base, temp=temp, iter=it, temp_via="constructor", tag="temp-%s-%s-constructor" % (kind, it))
             out.append((a, b, "%s/%s: setter vs constructor" % (kind, it)))
             # the same schedule supplied only after setup() (the model was set up at the constant temperature the schedule starts at)
             c = dict(base, temp=temp, iter=it, temp_via="after-setup", tag="temp-%s-%s-after-setup" % (kind, it))
             out.append((a, c, "%s/%s: schedule set before vs after setup()" % (kind, it)))
-            if kind == "array":
+            if kind in ("array", "quench"):
                 a2, b2 = dict(b, np_arrays=True, tag=b["tag"] + "-np"), dict(a, np_arrays=True, tag=a["tag"] + "-np")
                 out.append((a2, b2, "%s/%s: constructor then setter, same numpy arrays" % (kind, it)))
         # break points vs the same schedule as a function
